@@ -769,6 +769,37 @@ def gen_c08_net(R, tier, rejecting=False):
     return b.scenario({"oq": True} if oq else None)
 
 
+def exhaustive_c08_net():
+    """bounded-exhaustive NetworkGrid state machine: every history of length <= 3 (two agents) and <= 4 (one agent) over
+    {place a v, move a v, remove a} with v in {0, 1, 2 = a node that does not exist} that stays within the quantifier
+    (place_agent of unplaced agents only), each followed by a dump; NetworkGrid has no hidden state, so removing the
+    placed agents returns to the initial state and all histories are chained in one scenario per setting"""
+    import itertools
+
+    out = []
+    for nag, length in ((2, 3), (1, 4)):
+        ops = [(k, a, v) for a in range(nag) for k in ("nplace", "nmove") for v in (0, 1, 2)] + [("nremove", a, None) for a in range(nag)]
+        lines = [f"scenario net 2 {nag} 1 0 1"]
+        for hist in itertools.product(ops, repeat=length):
+            placed, ok, body = set(), True, []
+            for k, a, v in hist:
+                if k == "nplace":
+                    if a in placed:
+                        ok = False
+                        break
+                    if v < 2:
+                        placed.add(a)
+                elif k == "nremove":
+                    placed.discard(a)
+                body.append(f"{k} {a}" + ("" if v is None else f" {v}"))
+                body.append("ndump")
+            if not ok:
+                continue
+            lines += body + ["nallc"] + [f"nremove {a}" for a in sorted(placed)]
+        out.append(core.Scenario(lines, {"exhaustive": True}))
+    return out
+
+
 RADII = [1, 1, 1, 2, 2, 3, 4, 7]
 
 
